@@ -52,6 +52,12 @@ THEOREMS = [
     "Opacus.C12.eps_decreases_from_empty_counterexample",
     "Opacus.C12.mu_formula",
     "Opacus.C12.mu_mono",
+    "Opacus.C12.gdp_eps_unique",
+    "Opacus.C12.gdp_eps_antitone_delta",
+    "Opacus.C12.gdp_eps_mono",
+    "Opacus.GdpMono.strictAnti_eps",
+    "Opacus.GdpMono.strictMonoOn_mu",
+    "Opacus.GdpMono.gaussLike_Phi",
     "Opacus.C07.compose_heterogeneous_perm_invariant",
 ]
 RULE = (
@@ -66,9 +72,8 @@ TRUSTED = [
     "monotonicity / invariance theorems are over the reals for integer orders >= 2 (any non-empty list), sample rates in [0,1], sigma > 0; float summation order is not modelled (the search uses rel 1e-9)",
 ]
 PARTIAL = [
-    "monotonicity / invariance of the real GDP epsilon (root finding) and of the PRV accountant are searched on the real code, not proved; PRV composition algebra belongs to C07, whose compose_heterogeneous_perm_invariant gives the order invariance of the composed PRV pmf under the no-aliasing hypotheses (monotonicity of the RDP epsilon in the sample rate IS proved for integer orders: eps_mono_q, by stochastic dominance of the binomial weights)",
+    "GDP: uniqueness of the root of delta_eps_mu(., mu) = delta and its monotonicity in delta, steps, sample rate and sigma are proved over the reals with the true standard normal CDF (gdp_eps_unique, gdp_eps_antitone_delta, gdp_eps_mono); that brentq FINDS that root (bracket [0, 500], float tolerance) is checked by residual on the real code, not proved; monotonicity / invariance of the PRV accountant are searched on the real code; PRV composition algebra belongs to C07, whose compose_heterogeneous_perm_invariant gives the order invariance of the composed PRV pmf under the no-aliasing hypotheses (monotonicity of the RDP epsilon in the sample rate IS proved for integer orders: eps_mono_q, by stochastic dominance of the binomial weights)",
     "fractional orders: theorems cover integer orders only (script_eq_accountant and q_one_is_gaussian cover all orders)",
-    "eps_from_mu is specified as a root of delta_eps_mu(., mu) = delta and checked by residual; uniqueness of the root is not proved",
     "from the EMPTY history epsilon can decrease when a step is recorded (finding C12:rdp:eps-decreases-from-empty-history, Lean counterexample); eps_mono_steps is stated for non-empty histories",
 ]
 LEVEL_TEXT = (
